@@ -7,7 +7,7 @@ for f in sorted(glob.glob(os.path.join(ROOT, "seeded", "C*", "meta.json"))):
     m = json.load(open(f)); sid = os.path.basename(os.path.dirname(f))
     det = "; ".join(m.get("detected_by", [])) or "—"
     mis = "; ".join(m.get("missed_by", [])) or "—"
-    extra = m.get("disposition") or m.get("side_finding") or ""
+    extra = " ".join(x for x in [m.get("disposition"), m.get("side_finding"), m.get("rebased")] if x)
     rows.append(f"| {sid} | {m['property']} | {m['breaks']} | {m['needs']} | {det} | {mis} | {extra} |")
 table = "| seed | property | change | needs, to manifest | caught by | missed by | remarks |\n|---|---|---|---|---|---|---|\n" + "\n".join(rows)
 p = os.path.join(ROOT, "DESIGN.md"); s = open(p).read()
